@@ -275,6 +275,7 @@ type Env struct {
 	Cfg      string
 	FileRoot string
 	Srv      *hotline.Server
+	SeqOutbox bool
 	stopDrain chan struct{}
 	Sent     []hotline.Transaction // transactions drained from the outbox (direct mode)
 	sentMu   sync.Mutex
